@@ -3,9 +3,10 @@ C03 — Unedited maps are rewritten byte-identically; saving is idempotent.
 
 STATUS: partial.  Both full statements are visible below as `Prop`s over the model's `cycle`.
 `C03Identity` is false on the current tree for the two shapes the property names (64-slot MRGN,
-editor-prefilled UPRP with zero UPUS) and for non-zero damage of weapons no unit carries;
-`C03Idempotent` is false for a unit-property slot whose only non-zero field is the owner byte
-(all recorded findings, replayed on the real code on every run).  Proved: the fixed-point
+editor-prefilled UPRP with zero UPUS) and for non-zero damage of weapons no unit carries
+(recorded findings, replayed on the real code on every run).  `C03Idempotent` was false for a
+unit-property slot whose only non-zero field is the owner byte; repaired in the repository
+(21b171a: such a record is a placeholder, `cuwpRecUnused`), its witness stays in the corpus.  Proved: the fixed-point
 ingredients that hold for all inputs.
 -/
 import RichchkModel.Lemmas.PassThrough
